@@ -555,12 +555,12 @@ Proof.
 Qed.
 
 (* ------------------------------------------------------------------ the limit policies *)
-Definition sink_lim (limit : N) (s : sink) : Prop :=
-  (exists p, s_pol s = limit_policy p limit) /\ s_len s <= limit /\ sink_ok s.
+Definition sink_lim (p : bool) (limit : N) (s : sink) : Prop :=
+  s_pol s = limit_policy p limit /\ s_len s <= limit /\ sink_ok s.
 
-Lemma sink_lim_pres : forall limit, sink_pres (sink_lim limit).
+Lemma sink_lim_pres : forall p limit, sink_pres (sink_lim p limit).
 Proof.
-  intros limit s bs ((p & Hp) & L & O). destruct (sink_write s bs) as [s' r] eqn:E. cbn [fst].
+  intros p limit s bs (Hp & L & O). destruct (sink_write s bs) as [s' r] eqn:E. cbn [fst].
   pose proof (sink_write_keeps_ok _ _ _ _ O E) as O'.
   assert (X : s_pol s' = s_pol s /\ s_len s' <= limit).
   { unfold sink_write in E. cbv zeta in E. destruct (lenN bs =? 0) eqn:E0.
@@ -568,11 +568,11 @@ Proof.
     - destruct (lenN bs <=? s_pol s (s_calls s) (s_len s) (lenN bs)) eqn:E1; injection E as <- _;
         cbn [s_pol s_len]; (split; [reflexivity|]); rewrite Hp in *; unfold limit_policy in *;
         destruct (s_len s + lenN bs <=? limit) eqn:E2; try lia; destruct p; lia. }
-  destruct X as (X1 & X2). split; [exists p; congruence|]. split; assumption.
+  destruct X as (X1 & X2). split; [congruence|]. split; assumption.
 Qed.
 
-Lemma sink_new_lim : forall p limit, sink_lim limit (sink_new (limit_policy p limit)).
-Proof. intros. unfold sink_lim, sink_new, sink_ok. cbn. repeat split; eauto. lia. Qed.
+Lemma sink_new_lim : forall p limit, sink_lim p limit (sink_new (limit_policy p limit)).
+Proof. intros. unfold sink_lim, sink_new, sink_ok. cbn. repeat split; auto. lia. Qed.
 
 (* ------------------------------------------------------------------ histories *)
 Lemma wops_of_map : forall ops, wops_of (map AOp ops) = ops.
@@ -679,8 +679,8 @@ Proof.
   { destruct (finalize_io_res all_true a) as [H | H]; [|exact H]. exfalso.
     pose proof (finalize_ok_all_written_proof (limit_policy partial limit) cap ops F H) as Fl. fold a in Fl.
     destruct (pipeline_state_facts (limit_policy partial limit) cap ops F) as (_ & _ & Sk). fold a in Sk.
-    assert (L0 : sink_lim limit (ar_sink a)) by (rewrite Sk; apply sink_new_lim).
-    pose proof (finalize_io_pres _ all_true a (sink_lim_pres limit) L0) as (_ & L1 & O1).
+    assert (L0 : sink_lim partial limit (ar_sink a)) by (rewrite Sk; apply sink_new_lim).
+    pose proof (finalize_io_pres _ all_true a (sink_lim_pres partial limit) L0) as (_ & L1 & O1).
     unfold ar_file in Fl. unfold ar_sink, sink_ok in *. rewrite Fl in O1. lia. }
   split; [exact X | apply cli_exit_code_proof; exact X].
 Qed.
@@ -720,8 +720,8 @@ Theorem fault_file_within_limit_proof : forall partial limit cap ops, Forall buf
 Proof.
   intros partial limit cap ops F a.
   destruct (pipeline_state_facts (limit_policy partial limit) cap ops F) as (_ & _ & Sk). fold a in Sk.
-  assert (L0 : sink_lim limit (ar_sink a)) by (rewrite Sk; apply sink_new_lim).
-  pose proof (main_io_pres _ all_true a (sink_lim_pres limit) L0) as (_ & L1 & O1).
+  assert (L0 : sink_lim partial limit (ar_sink a)) by (rewrite Sk; apply sink_new_lim).
+  pose proof (main_io_pres _ all_true a (sink_lim_pres partial limit) L0) as (_ & L1 & O1).
   unfold ar_file. unfold ar_sink, sink_ok in *. lia.
 Qed.
 
@@ -792,4 +792,259 @@ Proof.
   destruct (ar_close_ok3 _ _ I1 E2) as (Fl & Cl & _).
   cbn [stops fst snd]. rewrite ar_drop_closed by (assumption || reflexivity).
   rewrite Fl. unfold complete_file. rewrite <- W, P1. reflexivity.
+Qed.
+
+(* ------------------------------------------------------------------ what is left behind after a fault
+   File system that stores the fitting part of a request (partial = true, the EFBIG/ENOSPC behaviour): once a
+   call has failed the file is exactly `limit` bytes long and stays as it is, and those bytes are the first
+   `limit` bytes of the complete archive. *)
+Definition pre (x F : list N) : Prop := exists y, x ++ y = F.
+
+Lemma pre_refl : forall x, pre x x.
+Proof. intros. exists []. apply app_nil_r. Qed.
+Lemma pre_trans : forall x y z, pre x y -> pre y z -> pre x z.
+Proof. intros x y z (a & A) (b & B). exists (a ++ b). rewrite app_assoc, A. exact B. Qed.
+Lemma pre_app : forall x y, pre x (x ++ y).
+Proof. intros. exists y. reflexivity. Qed.
+Lemma pre_ext : forall x F y, pre x F -> pre x (F ++ y).
+Proof. intros x F y H. eapply pre_trans; [exact H | apply pre_app]. Qed.
+Lemma pre_firstn : forall x F, pre x F -> x = firstnN (lenN x) F.
+Proof.
+  intros x F (y & <-). unfold firstnN, lenN. rewrite Nat2N.id. rewrite firstn_app, firstn_all, Nat.sub_diag.
+  cbn [firstn]. symmetry. apply app_nil_r.
+Qed.
+
+Definition full_at (limit : N) (s : sink) : Prop := s_pol s = limit_policy true limit /\ s_len s = limit.
+
+(* a full file does not change any more *)
+Lemma frozen_pres : forall limit X, sink_pres (fun s => full_at limit s /\ sink_bytes s = X).
+Proof.
+  intros limit X s bs ((Hp & L) & B). unfold sink_write. cbv zeta. destruct (lenN bs =? 0) eqn:E0; cbn [fst].
+  - repeat split; assumption.
+  - rewrite Hp. unfold limit_policy. destruct (s_len s + lenN bs <=? limit) eqn:E1; [lia|].
+    replace (limit - s_len s) with 0 by lia. destruct (lenN bs <=? 0) eqn:E2; [lia|]. cbn [fst].
+    destruct s as [pl c l ch]. unfold full_at. rewrite sink_bytes_cons. cbn [s_pol s_len] in *.
+    cbn [firstnS]. destruct bs; cbn [firstnS]; rewrite ?N.eqb_refl, app_nil_r; repeat split; auto; lia.
+Qed.
+
+Lemma sink_write_err_full : forall limit s bs s', sink_lim true limit s -> sink_write s bs = (s', Err) ->
+  full_at limit s' /\ pre (sink_bytes s') (sink_bytes s ++ bs).
+Proof.
+  intros limit s bs s' (Hp & L & O) H. destruct (sink_write_appends _ _ _ _ H) as (x & A & B & C & _ & _ & X).
+  split.
+  - split; [congruence|]. unfold sink_write in H. cbv zeta in H. destruct (lenN bs =? 0); [discriminate H|].
+    rewrite Hp in H. unfold limit_policy in H. destruct (s_len s + lenN bs <=? limit) eqn:E1.
+    + rewrite N.leb_refl in H. discriminate H.
+    + destruct (lenN bs <=? limit - s_len s) eqn:E2; [lia|]. injection H as <-. cbn [s_len]. lia.
+  - rewrite A. exists (skipnN (lenN x) bs). rewrite <- app_assoc. f_equal. rewrite X at 1. apply firstnN_skipnN.
+Qed.
+
+Lemma bw_flush_buf_err_full : forall limit b b', bw_inv b -> sink_lim true limit (b_sink b) ->
+  bw_flush_buf b = (b', Err) -> full_at limit (b_sink b') /\ pre (sink_bytes (b_sink b')) (bw_stream b).
+Proof.
+  intros limit b b' I Lm H. destruct (bw_flush_buf_any _ _ _ I H) as (_ & St & _).
+  split; [|rewrite <- St; apply pre_app].
+  unfold bw_flush_buf in H. destruct (b_len b =? 0); [discriminate H|].
+  destruct (sink_write (b_sink b) (buf_bytes b)) as [s' r] eqn:E.
+  destruct r as [[]| |]; try discriminate H. injection H as <-. cbn [b_sink].
+  exact (proj1 (sink_write_err_full _ _ _ _ Lm E)).
+Qed.
+
+Lemma bw_write_all_err_full : forall limit b bs b', bw_inv b -> sink_lim true limit (b_sink b) ->
+  bw_write_all b bs = (b', Err) -> full_at limit (b_sink b') /\ pre (sink_bytes (b_sink b')) (bw_stream b ++ bs).
+Proof.
+  intros limit b bs b' I Lm H. unfold bw_write_all in H. cbv zeta in H.
+  destruct (lenN bs <? b_cap b - b_len b) eqn:E0; [discriminate H|].
+  destruct (b_cap b - b_len b <? lenN bs) eqn:E2.
+  - destruct (bw_flush_buf b) as [b1 r1] eqn:E1. destruct (bw_flush_buf_res _ _ _ E1) as [-> | ->].
+    + destruct (bw_flush_buf_ok _ _ I E1) as (I1 & St1 & Em & _).
+      pose proof (bw_flush_buf_pres _ b (sink_lim_pres true limit) Lm) as Lm1. rewrite E1 in Lm1. cbn [fst] in Lm1.
+      destruct (b_cap b1 <=? lenN bs); [|discriminate H].
+      destruct (sink_write (b_sink b1) bs) as [s' r] eqn:E. injection H as <- ->. cbn [b_sink].
+      destruct (sink_write_err_full _ _ _ _ Lm1 E) as (F1 & P1). split; [exact F1|].
+      rewrite <- St1. unfold bw_stream. rewrite Em, app_nil_r. exact P1.
+    + injection H as <-. destruct (bw_flush_buf_err_full _ _ _ I Lm E1) as (F1 & P1).
+      split; [exact F1 | apply pre_ext; exact P1].
+  - assert (Z : b_cap b <=? lenN bs = true -> buf_bytes b = []).
+    { intros Hc. destruct I as (L & Cp & _). apply lenN_0_nil. lia. }
+    destruct (b_cap b <=? lenN bs) eqn:E3; [|discriminate H].
+    destruct (sink_write (b_sink b) bs) as [s' r] eqn:E. injection H as <- ->. cbn [b_sink].
+    destruct (sink_write_err_full _ _ _ _ Lm E) as (F1 & P1). split; [exact F1|].
+    unfold bw_stream. rewrite (Z eq_refl), app_nil_r. exact P1.
+Qed.
+
+(* the Container-level functions only append to what was written *)
+Lemma add_part_mono : forall w sid d m, pre (w_bytes w) (w_bytes (fst (add_part w sid d m))).
+Proof.
+  intros. unfold add_part. destruct (lenN (w_streams w) <=? sid); cbn [fst]; [apply pre_refl|].
+  rewrite w_bytes_cons2. apply pre_app.
+Qed.
+
+Lemma flush_items_mono : forall its w sid, pre (w_bytes w) (w_bytes (fst (flush_items w sid its))).
+Proof.
+  induction its as [|[d m] r IH]; intros; cbn [flush_items]; [apply pre_refl|].
+  pose proof (add_part_mono w sid d m) as M. destruct (add_part w sid d m) as [w' [[]| |]]; cbn [fst] in *; try exact M.
+  eapply pre_trans; [exact M | apply IH].
+Qed.
+
+Lemma flush_groups_mono : forall b w, pre (w_bytes w) (w_bytes (fst (flush_groups w b))).
+Proof.
+  induction b as [|[sid its] r IH]; intros; cbn [flush_groups]; [apply pre_refl|].
+  pose proof (flush_items_mono its w sid) as M. destruct (flush_items w sid its) as [w' [[]| |]]; cbn [fst] in *; try exact M.
+  eapply pre_trans; [exact M | apply IH].
+Qed.
+
+Definition ar_lim (limit : N) (a : arch) : Prop := sink_lim true limit (ar_sink a).
+
+Lemma ar_add_part_err_full : forall limit a sid d m a', ar_inv a -> ar_lim limit a ->
+  lenN (w_streams (a_w a)) <=? sid = false ->
+  ar_add_part all_true a sid d m = (a', Err) ->
+  full_at limit (ar_sink a') /\ pre (ar_file a') (w_bytes (fst (add_part (a_w a) sid d m))).
+Proof.
+  intros limit a sid d m a' (Op & I & St) Lm V H. unfold ar_add_part in H. cbv zeta in H. rewrite V, Op in H.
+  cbn [negb all_true p_add_meta p_add_data] in H. rewrite (add_part_valid _ _ _ _ V) in *. cbn [fst] in *.
+  rewrite w_bytes_cons2. fold (w_bytes (a_w a)). rewrite <- St.
+  destruct (bw_write_all (a_bw a) (write_varint m)) as [b1 r1] eqn:E1.
+  destruct (bw_write_all_res _ _ _ _ E1) as [-> | ->]; cbn [stops] in H.
+  - destruct (bw_write_all_ok _ _ _ I E1) as (I1 & St1 & _).
+    pose proof (bw_write_all_pres _ (a_bw a) (write_varint m) (sink_lim_pres true limit) Lm) as Lm1.
+    rewrite E1 in Lm1. cbn [fst] in Lm1.
+    destruct (bw_write_all b1 d) as [b2 r2] eqn:E2.
+    destruct (bw_write_all_res _ _ _ _ E2) as [-> | ->]; cbn [stops] in H; [discriminate H|].
+    injection H as <-. unfold ar_sink, ar_file. cbn [a_bw].
+    destruct (bw_write_all_err_full _ _ _ _ I1 Lm1 E2) as (F2 & P2). split; [exact F2|].
+    rewrite St1, <- app_assoc in P2. exact P2.
+  - injection H as <-. unfold ar_sink, ar_file. cbn [a_bw].
+    destruct (bw_write_all_err_full _ _ _ _ I Lm E1) as (F1 & P1). split; [exact F1|].
+    rewrite app_assoc. apply pre_ext. exact P1.
+Qed.
+
+Lemma ar_flush_items_err_full : forall limit its a sid a', ar_inv a -> ar_lim limit a ->
+  snd (flush_items (a_w a) sid its) = Ok tt ->
+  ar_flush_items all_true a sid its = (a', Err) ->
+  full_at limit (ar_sink a') /\ pre (ar_file a') (w_bytes (fst (flush_items (a_w a) sid its))).
+Proof.
+  intros limit its. induction its as [|[d m] r IH]; intros a sid a' I Lm V H; cbn [ar_flush_items flush_items] in *;
+    [discriminate H|].
+  assert (Vs : lenN (w_streams (a_w a)) <=? sid = false).
+  { unfold add_part in V. destruct (lenN (w_streams (a_w a)) <=? sid); [discriminate V | reflexivity]. }
+  destruct (ar_add_part all_true a sid d m) as [a1 res] eqn:E. cbn [all_true p_fb_add] in H.
+  pose proof (ar_add_part_res all_true a sid d m) as R. rewrite E in R. cbn [snd] in R.
+  destruct R as [-> | ->]; cbn [stops] in H.
+  - destruct (ar_add_part_ok _ _ _ _ _ I E) as (I1 & P1). rewrite P1 in *.
+    pose proof (ar_add_part_pres _ all_true a sid d m (sink_lim_pres true limit) Lm) as Lm1.
+    rewrite E in Lm1. cbn [fst] in Lm1. exact (IH _ _ _ I1 Lm1 V H).
+  - injection H as <-. destruct (ar_add_part_err_full _ _ _ _ _ _ I Lm Vs E) as (F1 & P1). split; [exact F1|].
+    rewrite (add_part_valid _ _ _ _ Vs) in *. cbn [fst] in *.
+    eapply pre_trans; [exact P1 | apply flush_items_mono].
+Qed.
+
+Lemma ar_flush_groups_err_full : forall limit b a a', ar_inv a -> ar_lim limit a ->
+  snd (flush_groups (a_w a) b) = Ok tt ->
+  ar_flush_groups all_true a b = (a', Err) ->
+  full_at limit (ar_sink a') /\ pre (ar_file a') (w_bytes (fst (flush_groups (a_w a) b))).
+Proof.
+  intros limit b. induction b as [|[sid its] r IH]; intros a a' I Lm V H; cbn [ar_flush_groups flush_groups] in *;
+    [discriminate H|].
+  destruct (flush_items (a_w a) sid its) as [w1 r1] eqn:EP.
+  destruct r1 as [[]| |]; try (cbn [snd] in V; discriminate V).
+  destruct (ar_flush_items all_true a sid its) as [a1 res] eqn:E.
+  pose proof (ar_flush_items_res all_true its a sid) as R. rewrite E in R. cbn [snd] in R.
+  destruct R as [-> | ->].
+  - destruct (ar_flush_items_ok _ _ _ _ I E) as (I1 & P1). rewrite EP in P1. injection P1 as ->.
+    pose proof (ar_flush_items_pres _ all_true its a sid (sink_lim_pres true limit) Lm) as Lm1.
+    rewrite E in Lm1. cbn [fst] in Lm1. exact (IH _ _ I1 Lm1 V H).
+  - injection H as <-.
+    assert (V1 : snd (flush_items (a_w a) sid its) = Ok tt) by (rewrite EP; reflexivity).
+    destruct (ar_flush_items_err_full _ _ _ _ _ I Lm V1 E) as (F1 & P1). split; [exact F1|].
+    rewrite EP in P1. cbn [fst] in P1. eapply pre_trans; [exact P1 | apply flush_groups_mono].
+Qed.
+
+Lemma ar_serialize_err_full : forall limit b w b', bw_inv b -> sink_lim true limit (b_sink b) ->
+  ar_serialize all_true b w = (b', Err) ->
+  full_at limit (b_sink b') /\
+  pre (sink_bytes (b_sink b')) (bw_stream b ++ footer_of w ++ write_fixed_u64 (lenN (footer_of w))).
+Proof.
+  intros limit b w b' I Lm H. unfold ar_serialize in H. cbv zeta in H. cbn [all_true p_ser_footer p_ser_len p_ser_flush] in H.
+  destruct (bw_write_all b (footer_of w)) as [b1 r1] eqn:E1.
+  destruct (bw_write_all_res _ _ _ _ E1) as [-> | ->]; cbn [stops] in H.
+  2:{ injection H as <-. destruct (bw_write_all_err_full _ _ _ _ I Lm E1) as (F1 & P1). split; [exact F1|].
+      rewrite app_assoc. apply pre_ext. exact P1. }
+  destruct (bw_write_all_ok _ _ _ I E1) as (I1 & St1 & _).
+  pose proof (bw_write_all_pres _ b (footer_of w) (sink_lim_pres true limit) Lm) as Lm1. rewrite E1 in Lm1. cbn [fst] in Lm1.
+  destruct (bw_write_all b1 (write_fixed_u64 (lenN (footer_of w)))) as [b2 r2] eqn:E2.
+  destruct (bw_write_all_res _ _ _ _ E2) as [-> | ->]; cbn [stops] in H.
+  2:{ injection H as <-. destruct (bw_write_all_err_full _ _ _ _ I1 Lm1 E2) as (F2 & P2). split; [exact F2|].
+      rewrite St1, <- app_assoc in P2. exact P2. }
+  destruct (bw_write_all_ok _ _ _ I1 E2) as (I2 & St2 & _).
+  pose proof (bw_write_all_pres _ b1 (write_fixed_u64 (lenN (footer_of w))) (sink_lim_pres true limit) Lm1) as Lm2.
+  rewrite E2 in Lm2. cbn [fst] in Lm2.
+  destruct (bw_flush b2) as [b3 r3] eqn:E3. unfold bw_flush in E3.
+  destruct (bw_flush_buf_res _ _ _ E3) as [-> | ->]; cbn [stops] in H; [discriminate H|].
+  injection H as <-. destruct (bw_flush_buf_err_full _ _ _ I2 Lm2 E3) as (F3 & P3). split; [exact F3|].
+  rewrite St2, St1, <- app_assoc in P3. exact P3.
+Qed.
+
+Lemma ar_close_err_full : forall limit a a', ar_inv a -> ar_lim limit a ->
+  ar_close all_true a = (a', Err) ->
+  full_at limit (ar_sink a') /\ pre (ar_file a') (close (a_w a)).
+Proof.
+  intros limit a a' (Op & I & St) Lm H. unfold ar_close in H. rewrite Op in H.
+  cbn [all_true p_close_flush p_close_ser] in H. unfold close. cbv zeta.
+  destruct (bw_flush (a_bw a)) as [b1 r1] eqn:E1. unfold bw_flush in E1.
+  destruct (bw_flush_buf_res _ _ _ E1) as [-> | ->]; cbn [stops] in H.
+  2:{ injection H as <-. unfold ar_sink, ar_file. cbn [a_bw].
+      destruct (bw_flush_buf_err_full _ _ _ I Lm E1) as (F1 & P1). split; [exact F1|].
+      apply pre_ext. rewrite <- St. exact P1. }
+  destruct (bw_flush_buf_ok _ _ I E1) as (I1 & St1 & _ & _).
+  pose proof (bw_flush_buf_pres _ (a_bw a) (sink_lim_pres true limit) Lm) as Lm1. rewrite E1 in Lm1. cbn [fst] in Lm1.
+  destruct (ar_serialize all_true b1 (a_w a)) as [b2 r2] eqn:E2.
+  pose proof (ar_serialize_res all_true b1 (a_w a)) as R. rewrite E2 in R. cbn [snd] in R.
+  destruct R as [-> | ->]; cbn [stops] in H; [discriminate H|].
+  injection H as <-. unfold ar_sink, ar_file. cbn [a_bw].
+  destruct (ar_serialize_err_full _ _ _ _ I1 Lm1 E2) as (F2 & P2). split; [exact F2|].
+  rewrite St1, St in P2. exact P2.
+Qed.
+
+Lemma finalize_io_err_full : forall limit a a', ar_inv a -> ar_lim limit a ->
+  snd (flush_buffers (a_w a)) = Ok tt ->
+  finalize_io all_true a = (a', Err) ->
+  full_at limit (ar_sink a') /\ pre (ar_file a') (close (fst (flush_buffers (a_w a)))).
+Proof.
+  intros limit a a' I Lm V H. unfold finalize_io in H. cbn [all_true p_fin_flush p_fin_close] in H.
+  destruct (ar_flush_buffers all_true a) as [a1 r1] eqn:E1.
+  pose proof (ar_flush_buffers_res all_true a) as R. rewrite E1 in R. cbn [snd] in R.
+  destruct R as [-> | ->]; cbn [stops] in H.
+  - destruct (ar_flush_buffers_ok _ _ I E1) as (I1 & P1). rewrite P1. cbn [fst].
+    pose proof (ar_flush_buffers_pres _ all_true a (sink_lim_pres true limit) Lm) as Lm1. rewrite E1 in Lm1. cbn [fst] in Lm1.
+    destruct (ar_close all_true a1) as [a2 r2] eqn:E2.
+    pose proof (ar_close_res all_true a1) as R. rewrite E2 in R. cbn [snd] in R.
+    destruct R as [-> | ->]; cbn [stops] in H; [discriminate H|]. injection H as <-.
+    exact (ar_close_err_full _ _ _ I1 Lm1 E2).
+  - injection H as <-. unfold ar_flush_buffers in E1. cbv zeta in E1. unfold flush_buffers in *.
+    assert (I' : ar_inv (ar_with_w a (mkW (w_off (a_w a)) (w_streams (a_w a)) (w_map (a_w a)) [] (w_chunks (a_w a))))).
+    { destruct I as (Op & Ib & St). unfold ar_inv, ar_with_w. cbn [a_w a_bw a_open].
+      split; [exact Op|]. split; [exact Ib|]. exact St. }
+    destruct (ar_flush_groups_err_full limit _ _ _ I' Lm V E1) as (F1 & P1). split; [exact F1|].
+    unfold close. cbv zeta. apply pre_ext. exact P1.
+Qed.
+
+Theorem fault_leaves_prefix_proof : forall limit cap ops, Forall buffered_only ops ->
+  snd (flush_buffers (fst (wrun w_init ops))) = Ok tt ->
+  limit < lenN (complete_file ops) ->
+  let a := fst (ar_run all_true (ar_open (limit_policy true limit) cap) (map AOp ops)) in
+  ar_file (fst (main_io all_true a)) = firstnN limit (complete_file ops).
+Proof.
+  intros limit cap ops F V Lt a.
+  destruct (write_fault_reported_proof true limit cap ops F Lt) as (X & _). fold a in X.
+  destruct (pipeline_state_facts (limit_policy true limit) cap ops F) as (I & W & Sk). fold a in I, W, Sk.
+  assert (Lm : ar_lim limit a) by (unfold ar_lim; rewrite Sk; apply sink_new_lim).
+  rewrite <- W in V.
+  unfold main_io, create_archive_io. destruct (finalize_io all_true a) as [a1 r] eqn:E. cbn [snd] in X. subst r.
+  destruct (finalize_io_err_full _ _ _ I Lm V E) as ((Hp & Hl) & P).
+  cbn [all_true p_cli_finalize p_cli_create stops fst].
+  pose proof (ar_drop_pres _ all_true a1 (frozen_pres limit (ar_file a1)) (conj (conj Hp Hl) eq_refl)) as ((_ & L2) & B2).
+  unfold ar_file in *. unfold ar_sink in *. rewrite B2.
+  pose proof (finalize_io_pres _ all_true a (sink_lim_pres true limit) Lm) as (_ & _ & O1). rewrite E in O1. cbn [fst] in O1.
+  unfold ar_sink, sink_ok in O1. rewrite (pre_firstn _ _ P). rewrite <- O1, Hl. unfold complete_file. rewrite W. reflexivity.
 Qed.
